@@ -20,6 +20,7 @@ type VCacheDump struct {
 	ValidatorsUpdate bool
 	ParamsUpdate     bool
 	MaxNonce         int32
+	Params           *types.Params // copy of the cached params item
 }
 
 // VerifDump returns a canonical copy of the cache. Read-only (hook H1).
@@ -39,6 +40,8 @@ func (c *Cache) VerifDump() *VCacheDump {
 	sort.Slice(d.Validators, func(i, j int) bool { return d.Validators[i].Validator < d.Validators[j].Validator })
 	if c.params.params != nil {
 		d.MaxNonce = c.params.params.MaxNonce
+		pp := types.Params(*c.params.params)
+		d.Params = &pp
 	}
 	return d
 }
